@@ -398,11 +398,16 @@ def run_agent_bystander(params, known):
         for kind in ('out', 'in'):
             for load in ('idle', 'x-sends'):
                 for (hname, octets, eof) in heads:
+                  for third in (False, True):
+                    if third and (hname not in ('bad-magic', 'http') or load != 'idle'):
+                        continue
                     k = 0
                     while True:
-                        case = dict(stop_on_close=stop_on_close, contact=kind, load=load, stray=hname, stray_after_steps=k)
-                        w = AgentWorld(dict(contacts=[kind, 'raw'], stop_on_close=stop_on_close))
-                        order = ['X', 'P0']
+                        case = dict(stop_on_close=stop_on_close, contact=kind, load=load, stray=hname, stray_after_steps=k, second_stray_afterwards=third)
+                        # with a second stray the first one is the connection the agent sees first (its contact is the oldest)
+                        (oi, ri, li) = (1, 0, 2) if third else (0, 1, None)
+                        w = AgentWorld(dict(contacts=(['raw', kind, 'raw-late'] if third else [kind, 'raw']), stop_on_close=stop_on_close))
+                        order = ['X', 'P%d' % oi]
                         # the ordinary session is set up first (the stray connection waits in the accept queue: X may take it at any time)
                         done = 0
                         live = list(order)
@@ -422,7 +427,7 @@ def run_agent_bystander(params, known):
                                     w.bus_call(w.procs['X'], est[0], 'send_bundle_data', data_x, iface=CONTACT_IFACE)
                                     sent = True
                             if not wrote and done >= k:
-                                w.raw_write(1, octets, eof=eof)
+                                w.raw_write(ri, octets, eof=eof)
                                 wrote = True
                             for (j, name) in enumerate(live):
                                 if w.step(name):
@@ -432,26 +437,34 @@ def run_agent_bystander(params, known):
                             else:
                                 if not wrote:
                                     exhausted = True
-                                    w.raw_write(1, octets, eof=eof)
+                                    w.raw_write(ri, octets, eof=eof)
                                     wrote = True
                                     continue
                                 break
+                        if third:
+                            # when everything has settled a further stray connection arrives (the agent has had a
+                            # contact come and go by now) and is dealt with in the same way
+                            w.raw_arrive(li)
+                            w.raw_write(li, octets, eof=eof)
+                            w.run_policy(live)
+                            if not w.raw[li].closed[1]:
+                                viol('stray-connection-left-open', 'the second stray connection (%s) is still open at the agent' % hname, case)
                         count += 1
-                        keys.add('%s/%s/%s/%s/%d' % (stop_on_close, kind, load, hname, k))
+                        keys.add('%s/%s/%s/%s/%d/%s' % (stop_on_close, kind, load, hname, k, third))
                         sig = w.sig
                         if sig.escaped:
                             viol('exception-escaped-callback', '%s: %s' % (sig.escaped[-1][1], sig.escaped[-1][2]), case)
-                        raw = w.raw[1]
+                        raw = w.raw[ri]
                         if not raw.closed[1]:
                             viol('stray-connection-left-open', 'the connection that sent %s is still open at the agent' % hname, case)
                         if w.stops:
                             viol('agent-stopped-by-a-stray-connection', 'on_stop ran %d times while the ordinary contact was in use' % w.stops, case)
-                        c0 = w.conns[0]
+                        c0 = w.conns[oi]
                         if any(c0.closed):
                             viol('ordinary-contact-closed', 'connection of the ordinary contact closed: %r' % (c0.closed,), case)
                         if load == 'x-sends':
                             fin = [a for (pn, _p, m, a) in sig.log if pn == 'X' and m == 'send_bundle_finished']
-                            got = [a for (pn, _p, m, a) in sig.log if pn == 'P0' and m == 'recv_bundle_finished']
+                            got = [a for (pn, _p, m, a) in sig.log if pn == 'P%d' % oi and m == 'recv_bundle_finished']
                             if [a[2] for a in fin] != ['success'] or not any(a[1] == len(data_x) and a[2] == 'success' for a in got):
                                 viol('own-transfer-affected', 'sender signals %r, receiver signals %r' % (fin, got), case)
                         # now the ordinary contact ends too
@@ -522,6 +535,12 @@ def run_same_read(params, known):
                             viol('chunking-changes-behaviour', 'one read: wrote %s closed=%s; two reads: wrote %s closed=%s'
                                  % (one.out_octets.hex()[-80:], one.r_closed(), two.out_octets.hex()[-80:], two.r_closed()), case)
                         continue
+                    # an out-of-place message that is answered when it arrives alone is answered too when it
+                    # arrives in the same read as the message before it
+                    if not a.startswith('unknown-type') and not one.escaped and not two.escaped:
+                        if len(one.out_octets) < len(two.out_octets) or (two.r_closed() and not one.r_closed()):
+                            viol('out-of-place-message-left-unanswered', 'in one read the endpoint wrote %d octets (closed=%s), in two reads %d (closed=%s): ...%s'
+                                 % (len(one.out_octets), one.r_closed(), len(two.out_octets), two.r_closed(), two.out_octets.hex()[-40:]), case)
                     for (w, how) in ((one, 'one read'), (two, 'two reads')):
                         if w.escaped:
                             viol('exception-escaped-callback', '%s: %s: %s' % (how, w.escaped[-1][0], w.escaped[-1][2]), dict(case, how=how))
